@@ -195,6 +195,22 @@ where
             let param = ValidationErrorKind::IndexMagicByte;
             return Err(Error::validation(param, "Index magic byte is not valid").into());
         }
+        // The record headers are the last section of the file: a file of another length is truncated
+        // (or was overwritten), and lookups in it would silently miss keys or fail
+        let headers_size = (self.header.records_count as u64).checked_mul(self.header.record_header_size as u64);
+        let expected_size = headers_size.and_then(|size| size.checked_add(self.metadata.leaves_offset));
+        if expected_size != Some(self.file.size()) || self.metadata.tree_offset > self.metadata.leaves_offset {
+            let param = ValidationErrorKind::IndexNotWritten;
+            return Err(Error::validation(
+                param,
+                format!(
+                    "Index is incomplete: file size is {}, but header describes {:?} bytes",
+                    self.file.size(),
+                    expected_size
+                ),
+            )
+            .into());
+        }
         Ok(())
     }
 
